@@ -218,7 +218,15 @@ def gen_bad(rng):
     if k == 3:
         return {rng.choice([1.5, float("nan"), 1e22]): inner}
     if k == 4:
-        return {(1, 2): inner}
+        import datetime as _dt
+        import uuid as _uuid
+        from decimal import Decimal as _D
+        bad_key = rng.choice([(1, 2), (1, 2), _uuid.UUID(int=5), b"k", _dt.date(2024, 1, 2), _dt.datetime(2024, 1, 2, 3, 4, 5),
+                              _D("1.5"), frozenset({1})])
+        d = {bad_key: inner}
+        if rng.random() < 0.5:
+            d["count"] = 1
+        return d if rng.random() < 0.6 else [0, {"nested": d}]
     return [1, {"k": {2: "two"}}, 10 ** rng.choice([4300, 5000])]
 
 
@@ -351,7 +359,10 @@ def from_model(m):
 
     def key(k):
         return {"kstr": lambda: us(k["s"]), "kint": lambda: int(k["i"]), "kbool": lambda: k["b"], "knone": lambda: None,
-                "kfloat": lambda: float(us(k["r"])), "ktuple": lambda: (1, 2)}[k["k"]]()
+                "kfloat": lambda: float(us(k["r"])),
+                "ktuple": lambda: {"UUID": __import__("uuid").UUID(int=5), "bytes": b"k", "date": __import__("datetime").date(2024, 1, 2),
+                                   "datetime": __import__("datetime").datetime(2024, 1, 2, 3, 4, 5),
+                                   "Decimal": __import__("decimal").Decimal("1.5"), "frozenset": frozenset({1})}.get(k.get("as"), (1, 2))}[k["k"]]()
 
     k = m["k"]
     if k == "none":
